@@ -39,7 +39,7 @@ func checkC13(c *core.Ctx) error {
 	if err := c.Load(packages.LoadSyntax); err != nil {
 		return err
 	}
-	c.Explanation = "Accuracy of the special functions over the float64 domain is a numerical statement and is NOT decided. Decided are structural necessary conditions: no routine of the special-function packages drops one of its inputs (R1); the factorial table holds k! exactly (R2); LogAdd/LogSub are log(e^a +- e^b) as term identities on every path (R3); every log-domain Bessel routine is, path by path, the logarithm of its linear-domain twin (R4); LogErfc's pieces partition the line, its middle piece is log(erfc x) and its series coefficients are the Taylor coefficients of log erfc (R5); the named mathematical constants carry the value of their name (R6)."
+	c.Explanation = "Accuracy of the special functions over the float64 domain is a numerical statement and is NOT decided. Decided are structural necessary conditions: no routine of the special-function packages drops one of its inputs (R1); the factorial table holds k! exactly (R2); LogAdd/LogSub are log(e^a +- e^b) as term identities on every path (R3); every log-domain Bessel routine is, path by path, the logarithm of its linear-domain twin (R4); LogErfc's pieces partition the line, its middle piece is log(erfc x) and its series coefficients are the Taylor coefficients of log erfc (R5); the named mathematical constants carry the value of their name (R6); the incomplete gamma dispatcher satisfies P + Q = 1, Lower + Upper = Gamma(a) and the scaling between regularised and full results for every selection of its evaluation method, with the evaluation routines opaque, and Temme's expansion is taken at its defining argument (R7); the shift loops of digamma/lgamma and the shift and reflection paths of trigamma follow the recurrences of those functions, and Mgamma/Mlgamma their definition (R8)."
 	c.Rule("C13.R1", "every parameter of a routine of special/ and logarithmetic/ is read by its body; a parameter that is not read is accepted only when every call site passes the neutral constant", 150)
 	c.Rule("C13.R2", "factorialList[k] == k! exactly; Factorial indexes the table only below its length", 22)
 	c.Rule("C13.R6", "M_PI, M_SQRTPI, M_ROOT_TWO_PI, M_EULER round to the float64 nearest to the value of their name", 4)
